@@ -196,6 +196,11 @@ fn collect_vec_pairs(mfs: Vec<proto::MetricFamily>, hist: bool) -> Value {
     Value::Array(out)
 }
 
+/// vector requests through the labels-map entry points (`with`, `get_metric_with`, `remove`) instead of the positional ones
+fn map_form(op: &Value) -> bool {
+    op.get("form").and_then(|x| x.as_str()) == Some("map")
+}
+
 /// Execute one scripted API call on the real object.
 pub fn exec(obj: &Obj, loc: &mut Locals, op: &Value) -> Value {
     let k = op["k"].as_str().unwrap();
@@ -284,6 +289,8 @@ pub fn exec(obj: &Obj, loc: &mut Locals, op: &Value) -> Value {
             let key = op.get("key").and_then(|x| x.as_str()).unwrap_or("");
             let hs = op.get("h").and_then(|x| x.as_i64()).unwrap_or(0);
             match k {
+                "with" if map_form(op) => { loc.ch.insert(hs, cv.with(&HashMap::from([("l", key)]))); json!(0) }
+                "remove" if map_form(op) => json!(if cv.remove(&HashMap::from([("l", key)])).is_ok() { "ok" } else { "err" }),
                 "with" => { loc.ch.insert(hs, cv.with_label_values(&[key])); json!(0) }
                 "hinc" => { loc.ch.get(&hs).expect("handle").inc_by(v); json!(0) }
                 "hget" => num(loc.ch.get(&hs).expect("handle").get()),
@@ -297,6 +304,8 @@ pub fn exec(obj: &Obj, loc: &mut Locals, op: &Value) -> Value {
             let key = op.get("key").and_then(|x| x.as_str()).unwrap_or("");
             let hs = op.get("h").and_then(|x| x.as_i64()).unwrap_or(0);
             match k {
+                "with" if map_form(op) => { loc.ich.insert(hs, cv.with(&HashMap::from([("l", key)]))); json!(0) }
+                "remove" if map_form(op) => json!(if cv.remove(&HashMap::from([("l", key)])).is_ok() { "ok" } else { "err" }),
                 "with" => { loc.ich.insert(hs, cv.with_label_values(&[key])); json!(0) }
                 "hinc" => { loc.ich.get(&hs).expect("handle").inc_by(v as u64); json!(0) }
                 "hget" => json!(loc.ich.get(&hs).expect("handle").get()),
@@ -325,6 +334,8 @@ pub fn exec(obj: &Obj, loc: &mut Locals, op: &Value) -> Value {
             let key = op.get("key").and_then(|x| x.as_str()).unwrap_or("");
             let hs = op.get("h").and_then(|x| x.as_i64()).unwrap_or(0);
             match k {
+                "with" if map_form(op) => { loc.hh.insert(hs, hv.with(&HashMap::from([("l", key)]))); json!(0) }
+                "remove" if map_form(op) => json!(if hv.remove(&HashMap::from([("l", key)])).is_ok() { "ok" } else { "err" }),
                 "with" => { loc.hh.insert(hs, hv.with_label_values(&[key])); json!(0) }
                 "hinc" => { loc.hh.get(&hs).expect("handle").observe(v); json!(0) }
                 "hget" => num(loc.hh.get(&hs).expect("handle").get_sample_sum()),
